@@ -9,11 +9,15 @@ use routee_compass_core::model::traversal::traversal_model::TraversalModel;
 use routee_compass_core::model::traversal::traversal_model_error::TraversalModelError;
 use routee_compass_core::model::unit::as_f64::AsF64;
 use routee_compass_core::model::unit::*;
-use routee_compass_core::util::cache_policy::float_cache_policy::{FloatCachePolicy, FloatCachePolicyConfig};
+use routee_compass_core::util::cache_policy::float_cache_policy::{
+    FloatCachePolicy, FloatCachePolicyConfig,
+};
 use routee_compass_powertrain::routee::energy_model_service::EnergyModelService;
 use routee_compass_powertrain::routee::energy_traversal_model::EnergyTraversalModel;
 use routee_compass_powertrain::routee::prediction::model_type::ModelType;
-use routee_compass_powertrain::routee::prediction::{load_prediction_model, PredictionModel, PredictionModelRecord};
+use routee_compass_powertrain::routee::prediction::{
+    load_prediction_model, PredictionModel, PredictionModelRecord,
+};
 use routee_compass_powertrain::routee::vehicle::default::bev::BEV;
 use routee_compass_powertrain::routee::vehicle::default::ice::ICE;
 use routee_compass_powertrain::routee::vehicle::default::phev::PHEV;
@@ -64,11 +68,16 @@ impl Synthetic {
         let mph = speed_mps / ru::speed_mps(&SpeedUnit::MilesPerHour);
         let per_mile = self.scale * (0.2 + 0.002 * mph + 2.0 * grade_dec);
         // per_mile is energy per mile; express per the rate unit's distance
-        per_mile * ru::distance_m(&ru::rate_distance_unit(&self.rate_unit)) / ru::distance_m(&DistanceUnit::Miles)
+        per_mile * ru::distance_m(&ru::rate_distance_unit(&self.rate_unit))
+            / ru::distance_m(&DistanceUnit::Miles)
     }
 }
 impl PredictionModel for Synthetic {
-    fn predict(&self, speed: (Speed, SpeedUnit), grade: (Grade, GradeUnit)) -> Result<(EnergyRate, EnergyRateUnit), TraversalModelError> {
+    fn predict(
+        &self,
+        speed: (Speed, SpeedUnit),
+        grade: (Grade, GradeUnit),
+    ) -> Result<(EnergyRate, EnergyRateUnit), TraversalModelError> {
         let mps = speed.0.as_f64() * ru::speed_mps(&speed.1);
         let dec = grade.0.as_f64() * ru::grade_dec(&grade.1);
         let _ = (&self.speed_unit, &self.grade_unit);
@@ -117,24 +126,66 @@ struct Built {
 
 const REAL_DIR: &str = "/repo/rust/routee-compass-powertrain/src/routee/test";
 
-fn record(cfg: &Cfg, which: &str) -> Result<(PredictionModelRecord, Box<dyn Fn(f64, f64) -> f64 + Send + Sync>), String> {
-    let cache = if cfg.cache { Some(FloatCachePolicy::from_config(FloatCachePolicyConfig { cache_size: if cfg.cache_size == 0 { 64 } else { cfg.cache_size }, key_precisions: if cfg.key_decimals == 0 { vec![6, 6] } else { vec![cfg.key_decimals as i32, cfg.key_decimals as i32] } }).map_err(|e| e.to_string())?) } else { None };
+fn record(
+    cfg: &Cfg,
+    which: &str,
+) -> Result<
+    (
+        PredictionModelRecord,
+        Box<dyn Fn(f64, f64) -> f64 + Send + Sync>,
+    ),
+    String,
+> {
+    let cache = if cfg.cache {
+        Some(
+            FloatCachePolicy::from_config(FloatCachePolicyConfig {
+                cache_size: if cfg.cache_size == 0 {
+                    64
+                } else {
+                    cfg.cache_size
+                },
+                key_precisions: if cfg.key_decimals == 0 {
+                    vec![6, 6]
+                } else {
+                    vec![cfg.key_decimals as i32, cfg.key_decimals as i32]
+                },
+            })
+            .map_err(|e| e.to_string())?,
+        )
+    } else {
+        None
+    };
     if cfg.real_model {
         let (file, eru) = match which {
             "ice" => ("Toyota_Camry.bin", EnergyRateUnit::GallonsGasolinePerMile),
-            "bev" => ("2017_CHEVROLET_Bolt.bin", EnergyRateUnit::KilowattHoursPerMile),
-            "cd" => ("2016_CHEVROLET_Volt_Charge_Depleting.bin", EnergyRateUnit::KilowattHoursPerMile),
-            _ => ("2016_CHEVROLET_Volt_Charge_Sustaining.bin", EnergyRateUnit::GallonsGasolinePerMile),
+            "bev" => (
+                "2017_CHEVROLET_Bolt.bin",
+                EnergyRateUnit::KilowattHoursPerMile,
+            ),
+            "cd" => (
+                "2016_CHEVROLET_Volt_Charge_Depleting.bin",
+                EnergyRateUnit::KilowattHoursPerMile,
+            ),
+            _ => (
+                "2016_CHEVROLET_Volt_Charge_Sustaining.bin",
+                EnergyRateUnit::GallonsGasolinePerMile,
+            ),
         };
         let path = std::path::Path::new(REAL_DIR).join(file);
         // the declaration of the bundled model: its speed unit, and for the electric models its rate unit, come from the
         // configuration (mph and per mile as bundled, or units built on different distances)
         let su = cfg.model_speed_unit;
         let eru = match (which, cfg.rate_unit) {
-            ("bev" | "cd", EnergyRateUnit::KilowattHoursPerKilometer | EnergyRateUnit::KilowattHoursPerMeter | EnergyRateUnit::KilowattHoursPerMile) => cfg.rate_unit,
+            (
+                "bev" | "cd",
+                EnergyRateUnit::KilowattHoursPerKilometer
+                | EnergyRateUnit::KilowattHoursPerMeter
+                | EnergyRateUnit::KilowattHoursPerMile,
+            ) => cfg.rate_unit,
             _ => eru,
         };
-        let (s_lo, s_hi, s_n, g_lo, g_hi, g_n) = (0.0f64, 100.0f64, 101usize, -0.2f64, 0.2f64, 41usize);
+        let (s_lo, s_hi, s_n, g_lo, g_hi, g_n) =
+            (0.0f64, 100.0f64, 101usize, -0.2f64, 0.2f64, 41usize);
         let mt = ModelType::Interpolate {
             underlying_model_type: Box::new(ModelType::Smartcore),
             speed_lower_bound: Speed::new(s_lo),
@@ -144,10 +195,32 @@ fn record(cfg: &Cfg, which: &str) -> Result<(PredictionModelRecord, Box<dyn Fn(f
             grade_upper_bound: Grade::new(g_hi),
             grade_bins: g_n,
         };
-        let rec = load_prediction_model(which.to_string(), &path, mt, su, GradeUnit::Decimal, eru, Some(EnergyRate::new(0.02)), Some(cfg.adjustment), cache).map_err(|e| e.to_string())?;
+        let rec = load_prediction_model(
+            which.to_string(),
+            &path,
+            mt,
+            su,
+            GradeUnit::Decimal,
+            eru,
+            Some(EnergyRate::new(0.02)),
+            Some(cfg.adjustment),
+            cache,
+        )
+        .map_err(|e| e.to_string())?;
         // reference: the underlying model itself, loaded separately under the same declaration and read at the four table
         // points around the edge's speed and grade (bilinear between them, written out here)
-        let under = load_prediction_model(which.to_string(), &path, ModelType::Smartcore, su, GradeUnit::Decimal, eru, Some(EnergyRate::new(0.02)), Some(1.0), None).map_err(|e| e.to_string())?;
+        let under = load_prediction_model(
+            which.to_string(),
+            &path,
+            ModelType::Smartcore,
+            su,
+            GradeUnit::Decimal,
+            eru,
+            Some(EnergyRate::new(0.02)),
+            Some(1.0),
+            None,
+        )
+        .map_err(|e| e.to_string())?;
         let f = move |mps: f64, dec: f64| {
             let s = mps / ru::speed_mps(&su);
             let ds = (s_hi - s_lo) / (s_n - 1) as f64;
@@ -156,10 +229,20 @@ fn record(cfg: &Cfg, which: &str) -> Result<(PredictionModelRecord, Box<dyn Fn(f
             let j0 = (((dec - g_lo) / dg).floor().max(0.0) as usize).min(g_n - 2);
             let sk = |i: usize| s_lo + i as f64 * ds;
             let gk = |j: usize| g_lo + j as f64 * dg;
-            let at = |i: usize, j: usize| under.prediction_model.predict((Speed::new(sk(i)), su), (Grade::new(gk(j)), GradeUnit::Decimal)).map(|r| r.0.as_f64()).unwrap_or(f64::NAN);
+            let at = |i: usize, j: usize| {
+                under
+                    .prediction_model
+                    .predict(
+                        (Speed::new(sk(i)), su),
+                        (Grade::new(gk(j)), GradeUnit::Decimal),
+                    )
+                    .map(|r| r.0.as_f64())
+                    .unwrap_or(f64::NAN)
+            };
             let ts = (s - sk(i0)) / ds;
             let tg = (dec - gk(j0)) / dg;
-            (at(i0, j0) * (1.0 - ts) + at(i0 + 1, j0) * ts) * (1.0 - tg) + (at(i0, j0 + 1) * (1.0 - ts) + at(i0 + 1, j0 + 1) * ts) * tg
+            (at(i0, j0) * (1.0 - ts) + at(i0 + 1, j0) * ts) * (1.0 - tg)
+                + (at(i0, j0 + 1) * (1.0 - ts) + at(i0 + 1, j0 + 1) * ts) * tg
         };
         Ok((rec, Box::new(f)))
     } else {
@@ -172,11 +255,22 @@ fn record(cfg: &Cfg, which: &str) -> Result<(PredictionModelRecord, Box<dyn Fn(f
                 }
             }
             _ => match cfg.rate_unit {
-                EnergyRateUnit::KilowattHoursPerKilometer | EnergyRateUnit::KilowattHoursPerMeter | EnergyRateUnit::KilowattHoursPerMile => cfg.rate_unit,
+                EnergyRateUnit::KilowattHoursPerKilometer
+                | EnergyRateUnit::KilowattHoursPerMeter
+                | EnergyRateUnit::KilowattHoursPerMile => cfg.rate_unit,
                 _ => EnergyRateUnit::KilowattHoursPerMile,
             },
         };
-        let syn = Synthetic { speed_unit: cfg.model_speed_unit, grade_unit: cfg.model_grade_unit, rate_unit: unit, scale: if which == "cs" || which == "ice" { 0.04 } else { 1.0 } };
+        let syn = Synthetic {
+            speed_unit: cfg.model_speed_unit,
+            grade_unit: cfg.model_grade_unit,
+            rate_unit: unit,
+            scale: if which == "cs" || which == "ice" {
+                0.04
+            } else {
+                1.0
+            },
+        };
         let s2 = syn.clone();
         let rec = PredictionModelRecord {
             name: which.to_string(),
@@ -196,19 +290,45 @@ fn record(cfg: &Cfg, which: &str) -> Result<(PredictionModelRecord, Box<dyn Fn(f
 fn build(cfg: &Cfg) -> Result<Built, String> {
     let types = edge_types_for(cfg);
     // the time model's speed table is stored in the time model's speed unit
-    let speeds: Vec<Speed> = types.iter().map(|(_, kph, _)| Speed::new(kph * ru::speed_mps(&SpeedUnit::KilometersPerHour) / ru::speed_mps(&cfg.time_speed_unit))).collect();
+    let speeds: Vec<Speed> = types
+        .iter()
+        .map(|(_, kph, _)| {
+            Speed::new(
+                kph * ru::speed_mps(&SpeedUnit::KilometersPerHour)
+                    / ru::speed_mps(&cfg.time_speed_unit),
+            )
+        })
+        .collect();
     let max = speeds.iter().map(|s| s.as_f64()).fold(0.0, f64::max);
-    let engine = SpeedTraversalEngine { speed_table: speeds.into_boxed_slice(), speed_unit: cfg.time_speed_unit, time_unit: cfg.time_time_unit, distance_unit: cfg.time_distance_unit, max_speed: Speed::new(max) };
-    let grades: Vec<Grade> = types.iter().map(|(_, _, g)| Grade::new(g / ru::grade_dec(&cfg.grade_table_unit))).collect();
+    let engine = SpeedTraversalEngine {
+        speed_table: speeds.into_boxed_slice(),
+        speed_unit: cfg.time_speed_unit,
+        time_unit: cfg.time_time_unit,
+        distance_unit: cfg.time_distance_unit,
+        max_speed: Speed::new(max),
+    };
+    let grades: Vec<Grade> = types
+        .iter()
+        .map(|(_, _, g)| Grade::new(g / ru::grade_dec(&cfg.grade_table_unit)))
+        .collect();
     let cap = Energy::new(cfg.capacity_kwh);
     let mut lib: HashMap<String, Arc<dyn VehicleType>> = HashMap::new();
-    let (rate_a, rate_b, ua, ub, ideal): (Box<dyn Fn(f64, f64) -> f64 + Send + Sync>, Option<Box<dyn Fn(f64, f64) -> f64 + Send + Sync>>, EnergyRateUnit, Option<EnergyRateUnit>, f64);
+    let (rate_a, rate_b, ua, ub, ideal): (
+        Box<dyn Fn(f64, f64) -> f64 + Send + Sync>,
+        Option<Box<dyn Fn(f64, f64) -> f64 + Send + Sync>>,
+        EnergyRateUnit,
+        Option<EnergyRateUnit>,
+        f64,
+    );
     match cfg.vehicle.as_str() {
         "ice" => {
             let (rec, f) = record(cfg, "ice")?;
             ua = rec.energy_rate_unit;
             ideal = rec.ideal_energy_rate.as_f64();
-            lib.insert("v".into(), Arc::new(ICE::new("v".into(), rec).map_err(|e| e.to_string())?));
+            lib.insert(
+                "v".into(),
+                Arc::new(ICE::new("v".into(), rec).map_err(|e| e.to_string())?),
+            );
             rate_a = f;
             rate_b = None;
             ub = None;
@@ -217,7 +337,16 @@ fn build(cfg: &Cfg) -> Result<Built, String> {
             let (rec, f) = record(cfg, "bev")?;
             ua = rec.energy_rate_unit;
             ideal = rec.ideal_energy_rate.as_f64();
-            lib.insert("v".into(), Arc::new(BEV::new("v".into(), rec, cap, cap, EnergyUnit::KilowattHours)));
+            lib.insert(
+                "v".into(),
+                Arc::new(BEV::new(
+                    "v".into(),
+                    rec,
+                    cap,
+                    cap,
+                    EnergyUnit::KilowattHours,
+                )),
+            );
             rate_a = f;
             rate_b = None;
             ub = None;
@@ -228,13 +357,29 @@ fn build(cfg: &Cfg) -> Result<Built, String> {
             ua = cd.energy_rate_unit;
             ub = Some(cs.energy_rate_unit);
             ideal = cd.ideal_energy_rate.as_f64();
-            lib.insert("v".into(), Arc::new(PHEV::new("v".into(), cs, cd, cap, cap, EnergyUnit::KilowattHours, None).map_err(|e| e.to_string())?));
+            lib.insert(
+                "v".into(),
+                Arc::new(
+                    PHEV::new(
+                        "v".into(),
+                        cs,
+                        cd,
+                        cap,
+                        cap,
+                        EnergyUnit::KilowattHours,
+                        None,
+                    )
+                    .map_err(|e| e.to_string())?,
+                ),
+            );
             rate_a = f;
             rate_b = Some(g);
         }
     }
     let service = EnergyModelService {
-        time_model_service: Arc::new(SpeedLookupService { e: Arc::new(engine) }),
+        time_model_service: Arc::new(SpeedLookupService {
+            e: Arc::new(engine),
+        }),
         time_model_speed_unit: cfg.time_speed_unit,
         grade_table: Arc::new(Some(grades.into_boxed_slice())),
         grade_table_grade_unit: cfg.grade_table_unit,
@@ -246,9 +391,20 @@ fn build(cfg: &Cfg) -> Result<Built, String> {
     if !cfg.start_soc.is_null() {
         q["starting_soc_percent"] = cfg.start_soc.clone();
     }
-    let model = EnergyTraversalModel::new(Arc::new(service), &q).map_err(|e| format!("build: {}", e))?;
-    let sm = StateModel::empty().extend(model.state_features()).map_err(|e| e.to_string())?;
-    Ok(Built { model: Arc::new(model), sm, rate_a, rate_b, rate_unit_a: ua, rate_unit_b: ub, ideal_a: ideal })
+    let model =
+        EnergyTraversalModel::new(Arc::new(service), &q).map_err(|e| format!("build: {}", e))?;
+    let sm = StateModel::empty()
+        .extend(model.state_features())
+        .map_err(|e| e.to_string())?;
+    Ok(Built {
+        model: Arc::new(model),
+        sm,
+        rate_a,
+        rate_b,
+        rate_unit_a: ua,
+        rate_unit_b: ub,
+        ideal_a: ideal,
+    })
 }
 
 fn energy_unit_factor(from: &EnergyUnit, to: &EnergyUnit) -> f64 {
@@ -267,7 +423,15 @@ pub fn check_history(cfg: &Cfg, b: &Built, hist: &[usize], st: &mut Stats) {
     let tol = if cfg.real_model { 2e-2 } else { 3e-3 };
     let case = || json!({"cfg": cfg, "edge_history": hist, "edge_alphabet": if cfg.key_decimals == 0 { "index -> (length m, speed kph, grade) over lengths {100,1000} x speeds {20,60} x grades {-0.15,0,0.06}" } else { "index -> (1000 m, speed kph, grade) over speeds {20,60} x grades {-0.02,-0.01,0,0.01}" }});
     let size = hist.len() as u64 * 100 + hist.iter().sum::<usize>() as u64;
-    let comp_base = format!("{}.{}", cfg.vehicle, if cfg.real_model { "real_model" } else { "synthetic_model" });
+    let comp_base = format!(
+        "{}.{}",
+        cfg.vehicle,
+        if cfg.real_model {
+            "real_model"
+        } else {
+            "synthetic_model"
+        }
+    );
     let mut state = match b.sm.initial_state() {
         Ok(s) => s,
         Err(e) => {
@@ -284,7 +448,13 @@ pub fn check_history(cfg: &Cfg, b: &Built, hist: &[usize], st: &mut Stats) {
         match b.sm.get_custom_f64(&state, &name_s) {
             Ok(s) if close(s, start, 1e-9) => st.pass("charge_starts_at_query_value"),
             other => {
-                st.violation(&comp_base, "charge_starts_at_query_value", size, || format!("{:?} want {}", other, start), case);
+                st.violation(
+                    &comp_base,
+                    "charge_starts_at_query_value",
+                    size,
+                    || format!("{:?} want {}", other, start),
+                    case,
+                );
                 return;
             }
         }
@@ -292,7 +462,7 @@ pub fn check_history(cfg: &Cfg, b: &Built, hist: &[usize], st: &mut Stats) {
     let mut ref_soc = start;
     let mut ref_elec = 0.0; // in kWh
     let mut ref_liq = 0.0; // in the liquid rate's energy unit
-    // magnitudes accumulated so far: tolerances are relative to them, not to a sum that may cancel
+                           // magnitudes accumulated so far: tolerances are relative to them, not to a sum that may cancel
     let mut mag_elec = 0.0;
     let mut mag_liq = 0.0;
     for (step, e) in hist.iter().enumerate() {
@@ -308,7 +478,13 @@ pub fn check_history(cfg: &Cfg, b: &Built, hist: &[usize], st: &mut Stats) {
                 return;
             }
             Ok(Err(e)) => {
-                st.violation(&comp_base, "traversal_succeeds", size, || e.to_string(), case);
+                st.violation(
+                    &comp_base,
+                    "traversal_succeeds",
+                    size,
+                    || e.to_string(),
+                    case,
+                );
                 return;
             }
             Ok(Ok(())) => {}
@@ -327,7 +503,14 @@ pub fn check_history(cfg: &Cfg, b: &Built, hist: &[usize], st: &mut Stats) {
                 soc_before > 0.0
             }
         };
-        let (rate, unit) = if cfg.vehicle == "phev" && !electric_mode { ((b.rate_b.as_ref().unwrap())(mps, grade), b.rate_unit_b.unwrap()) } else { ((b.rate_a)(mps, grade), b.rate_unit_a) };
+        let (rate, unit) = if cfg.vehicle == "phev" && !electric_mode {
+            (
+                (b.rate_b.as_ref().unwrap())(mps, grade),
+                b.rate_unit_b.unwrap(),
+            )
+        } else {
+            ((b.rate_a)(mps, grade), b.rate_unit_a)
+        };
         let dist_in_rate_unit = len_m / ru::distance_m(&ru::rate_distance_unit(&unit));
         let energy = rate * cfg.adjustment * dist_in_rate_unit; // in ru::rate_energy_unit(&unit)
         let comp = format!("{}.step", comp_base);
@@ -335,31 +518,67 @@ pub fn check_history(cfg: &Cfg, b: &Built, hist: &[usize], st: &mut Stats) {
         if cfg.vehicle == "ice" {
             ref_liq += energy;
             mag_liq += energy.abs();
-            let got = b.sm.get_energy(&state, &name_l, &ru::rate_energy_unit(&unit)).map(|e| e.as_f64()).unwrap_or(f64::NAN);
+            let got =
+                b.sm.get_energy(&state, &name_l, &ru::rate_energy_unit(&unit))
+                    .map(|e| e.as_f64())
+                    .unwrap_or(f64::NAN);
             if (got - ref_liq).abs() <= tol * mag_liq + 1e-12 {
                 st.pass("energy_is_rate_times_distance_times_adjustment");
             } else {
-                st.violation(&comp, "energy_is_rate_times_distance_times_adjustment", size, || format!("step {} edge type {}: accumulated liquid energy {} reference {}", step, e, got, ref_liq), case);
+                st.violation(
+                    &comp,
+                    "energy_is_rate_times_distance_times_adjustment",
+                    size,
+                    || {
+                        format!(
+                            "step {} edge type {}: accumulated liquid energy {} reference {}",
+                            step, e, got, ref_liq
+                        )
+                    },
+                    case,
+                );
                 return;
             }
         } else {
-            let d_elec_kwh = if electric_mode { energy * energy_unit_factor(&ru::rate_energy_unit(&unit), &EnergyUnit::KilowattHours) } else { 0.0 };
+            let d_elec_kwh = if electric_mode {
+                energy
+                    * energy_unit_factor(&ru::rate_energy_unit(&unit), &EnergyUnit::KilowattHours)
+            } else {
+                0.0
+            };
             ref_elec += d_elec_kwh;
             mag_elec += d_elec_kwh.abs();
             if cfg.vehicle == "phev" && !electric_mode {
                 ref_liq += energy;
                 mag_liq += energy.abs();
             }
-            let got_e = b.sm.get_energy(&state, &name_e, &EnergyUnit::KilowattHours).map(|e| e.as_f64()).unwrap_or(f64::NAN);
+            let got_e =
+                b.sm.get_energy(&state, &name_e, &EnergyUnit::KilowattHours)
+                    .map(|e| e.as_f64())
+                    .unwrap_or(f64::NAN);
             if (got_e - ref_elec).abs() <= tol * mag_elec + 1e-12 {
                 st.pass("energy_is_rate_times_distance_times_adjustment");
             } else {
-                st.violation(&comp, "energy_is_rate_times_distance_times_adjustment", size, || format!("step {} edge type {}: accumulated electric energy {} kWh reference {}", step, e, got_e, ref_elec), case);
+                st.violation(
+                    &comp,
+                    "energy_is_rate_times_distance_times_adjustment",
+                    size,
+                    || {
+                        format!(
+                            "step {} edge type {}: accumulated electric energy {} kWh reference {}",
+                            step, e, got_e, ref_elec
+                        )
+                    },
+                    case,
+                );
                 return;
             }
             if cfg.vehicle == "phev" {
                 let lu = ru::rate_energy_unit(&b.rate_unit_b.unwrap());
-                let got_l = b.sm.get_energy(&state, &name_l, &lu).map(|e| e.as_f64()).unwrap_or(f64::NAN);
+                let got_l =
+                    b.sm.get_energy(&state, &name_l, &lu)
+                        .map(|e| e.as_f64())
+                        .unwrap_or(f64::NAN);
                 if (got_l - ref_liq).abs() <= tol * mag_liq + 1e-12 {
                     st.pass("hybrid_draws_one_energy_source_per_edge");
                 } else {
@@ -372,20 +591,45 @@ pub fn check_history(cfg: &Cfg, b: &Built, hist: &[usize], st: &mut Stats) {
             ref_soc = unclamped.clamp(0.0, 100.0);
             let got_s = b.sm.get_custom_f64(&state, &name_s).unwrap_or(f64::NAN);
             if !(0.0..=100.0).contains(&got_s) {
-                st.violation(&comp, "charge_stays_within_0_100", size, || format!("step {}: {}", step, got_s), case);
+                st.violation(
+                    &comp,
+                    "charge_stays_within_0_100",
+                    size,
+                    || format!("step {}: {}", step, got_s),
+                    case,
+                );
                 return;
             }
             st.pass("charge_stays_within_0_100");
             if (unclamped - ref_soc).abs() < 1e-9 {
                 // not clamped: exact change
-                if (got_s - ref_soc).abs() <= tol * (100.0 * d_elec_kwh.abs() / cfg.capacity_kwh) + 1e-7 {
+                if (got_s - ref_soc).abs()
+                    <= tol * (100.0 * d_elec_kwh.abs() / cfg.capacity_kwh) + 1e-7
+                {
                     st.pass("unclamped_charge_change_is_exact");
                 } else {
-                    st.violation(&comp, "unclamped_charge_change_is_exact", size, || format!("step {}: charge {} -> {} but -100 x {} kWh / {} kWh gives {}", step, soc_before, got_s, d_elec_kwh, cfg.capacity_kwh, ref_soc), case);
+                    st.violation(
+                        &comp,
+                        "unclamped_charge_change_is_exact",
+                        size,
+                        || {
+                            format!(
+                                "step {}: charge {} -> {} but -100 x {} kWh / {} kWh gives {}",
+                                step, soc_before, got_s, d_elec_kwh, cfg.capacity_kwh, ref_soc
+                            )
+                        },
+                        case,
+                    );
                     return;
                 }
             } else if (got_s - ref_soc).abs() > 1e-6 {
-                st.violation(&comp, "clamped_charge_is_at_bound", size, || format!("step {}: charge {} reference {}", step, got_s, ref_soc), case);
+                st.violation(
+                    &comp,
+                    "clamped_charge_is_at_bound",
+                    size,
+                    || format!("step {}: charge {} reference {}", step, got_s, ref_soc),
+                    case,
+                );
                 return;
             }
             // carry the implementation's value forward so that rounding cannot accumulate into a mode flip
@@ -393,7 +637,18 @@ pub fn check_history(cfg: &Cfg, b: &Built, hist: &[usize], st: &mut Stats) {
         }
         let _ = before;
     }
-    st.outcome(&format!("final_soc_{}", if !has_batt { "n/a".to_string() } else if ref_soc <= 0.0 { "empty".to_string() } else if ref_soc >= 100.0 { "full".to_string() } else { "partial".to_string() }));
+    st.outcome(&format!(
+        "final_soc_{}",
+        if !has_batt {
+            "n/a".to_string()
+        } else if ref_soc <= 0.0 {
+            "empty".to_string()
+        } else if ref_soc >= 100.0 {
+            "full".to_string()
+        } else {
+            "partial".to_string()
+        }
+    ));
 }
 
 /// best-case energy used to order the search: ideal rate x great-circle distance
@@ -411,12 +666,26 @@ fn check_estimate(cfg: &Cfg, b: &Built, st: &mut Stats) {
         Ok(Ok(())) => {
             let d_m = ru::great_circle_m(0.0, 0.0, 0.02f32 as f64, 0.01f32 as f64);
             let want = b.ideal_a * d_m / ru::distance_m(&ru::rate_distance_unit(&b.rate_unit_a));
-            let name = if cfg.vehicle == "ice" { "energy_liquid" } else { "energy_electric" }.to_string();
-            let got = b.sm.get_energy(&state, &name, &ru::rate_energy_unit(&b.rate_unit_a)).map(|e| e.as_f64()).unwrap_or(f64::NAN);
+            let name = if cfg.vehicle == "ice" {
+                "energy_liquid"
+            } else {
+                "energy_electric"
+            }
+            .to_string();
+            let got =
+                b.sm.get_energy(&state, &name, &ru::rate_energy_unit(&b.rate_unit_a))
+                    .map(|e| e.as_f64())
+                    .unwrap_or(f64::NAN);
             if close(got, want, 3e-3) {
                 st.pass("best_case_energy_is_ideal_rate_times_distance");
             } else {
-                st.violation(&comp, "best_case_energy_is_ideal_rate_times_distance", 0, || format!("estimate {} reference {}", got, want), case);
+                st.violation(
+                    &comp,
+                    "best_case_energy_is_ideal_rate_times_distance",
+                    0,
+                    || format!("estimate {} reference {}", got, want),
+                    case,
+                );
             }
         }
         Ok(Err(e)) => st.violation(&comp, "estimate_succeeds", 0, || e.to_string(), case),
@@ -427,18 +696,68 @@ fn check_estimate(cfg: &Cfg, b: &Built, st: &mut Stats) {
 fn configs(tier: Tier) -> Vec<Cfg> {
     let mut out = vec![];
     let model_units: Vec<(SpeedUnit, GradeUnit, EnergyRateUnit)> = vec![
-        (SpeedUnit::MilesPerHour, GradeUnit::Decimal, EnergyRateUnit::KilowattHoursPerMile),
-        (SpeedUnit::KilometersPerHour, GradeUnit::Percent, EnergyRateUnit::KilowattHoursPerKilometer),
-        (SpeedUnit::MetersPerSecond, GradeUnit::Millis, EnergyRateUnit::KilowattHoursPerMeter),
-        (SpeedUnit::MilesPerHour, GradeUnit::Percent, EnergyRateUnit::GallonsDieselPerMile),
-        (SpeedUnit::KilometersPerHour, GradeUnit::Decimal, EnergyRateUnit::GallonsGasolinePerMile),
+        (
+            SpeedUnit::MilesPerHour,
+            GradeUnit::Decimal,
+            EnergyRateUnit::KilowattHoursPerMile,
+        ),
+        (
+            SpeedUnit::KilometersPerHour,
+            GradeUnit::Percent,
+            EnergyRateUnit::KilowattHoursPerKilometer,
+        ),
+        (
+            SpeedUnit::MetersPerSecond,
+            GradeUnit::Millis,
+            EnergyRateUnit::KilowattHoursPerMeter,
+        ),
+        (
+            SpeedUnit::MilesPerHour,
+            GradeUnit::Percent,
+            EnergyRateUnit::GallonsDieselPerMile,
+        ),
+        (
+            SpeedUnit::KilometersPerHour,
+            GradeUnit::Decimal,
+            EnergyRateUnit::GallonsGasolinePerMile,
+        ),
     ];
     let time_units: Vec<(SpeedUnit, DistanceUnit, TimeUnit, DistanceUnit, GradeUnit)> = vec![
-        (SpeedUnit::KilometersPerHour, DistanceUnit::Meters, TimeUnit::Seconds, DistanceUnit::Meters, GradeUnit::Decimal),
-        (SpeedUnit::MilesPerHour, DistanceUnit::Miles, TimeUnit::Minutes, DistanceUnit::Miles, GradeUnit::Percent),
-        (SpeedUnit::MetersPerSecond, DistanceUnit::Kilometers, TimeUnit::Hours, DistanceUnit::Feet, GradeUnit::Millis),
-        (SpeedUnit::KilometersPerHour, DistanceUnit::Feet, TimeUnit::Milliseconds, DistanceUnit::Kilometers, GradeUnit::Percent),
-        (SpeedUnit::MilesPerHour, DistanceUnit::Inches, TimeUnit::Seconds, DistanceUnit::Inches, GradeUnit::Decimal),
+        (
+            SpeedUnit::KilometersPerHour,
+            DistanceUnit::Meters,
+            TimeUnit::Seconds,
+            DistanceUnit::Meters,
+            GradeUnit::Decimal,
+        ),
+        (
+            SpeedUnit::MilesPerHour,
+            DistanceUnit::Miles,
+            TimeUnit::Minutes,
+            DistanceUnit::Miles,
+            GradeUnit::Percent,
+        ),
+        (
+            SpeedUnit::MetersPerSecond,
+            DistanceUnit::Kilometers,
+            TimeUnit::Hours,
+            DistanceUnit::Feet,
+            GradeUnit::Millis,
+        ),
+        (
+            SpeedUnit::KilometersPerHour,
+            DistanceUnit::Feet,
+            TimeUnit::Milliseconds,
+            DistanceUnit::Kilometers,
+            GradeUnit::Percent,
+        ),
+        (
+            SpeedUnit::MilesPerHour,
+            DistanceUnit::Inches,
+            TimeUnit::Seconds,
+            DistanceUnit::Inches,
+            GradeUnit::Decimal,
+        ),
     ];
     for vehicle in ["ice", "bev", "phev"] {
         for (mi, (msu, mgu, mru)) in model_units.iter().enumerate() {
@@ -472,7 +791,18 @@ fn configs(tier: Tier) -> Vec<Cfg> {
                                 cache,
                                 cache_size: *csize,
                                 // every third configuration: the energy model is configured with another time unit than the time model
-                                service_time_unit: if (mi + ti + ci + ki) % 3 == 1 { Some([TimeUnit::Hours, TimeUnit::Minutes, TimeUnit::Seconds, TimeUnit::Milliseconds][(mi + ki) % 4]) } else { None },
+                                service_time_unit: if (mi + ti + ci + ki) % 3 == 1 {
+                                    Some(
+                                        [
+                                            TimeUnit::Hours,
+                                            TimeUnit::Minutes,
+                                            TimeUnit::Seconds,
+                                            TimeUnit::Milliseconds,
+                                        ][(mi + ki) % 4],
+                                    )
+                                } else {
+                                    None
+                                },
                                 real_model: false,
                                 key_decimals: 0,
                             });
@@ -502,7 +832,11 @@ fn configs(tier: Tier) -> Vec<Cfg> {
                     adjustment: 1.1,
                     cache: cap > 1.0,
                     cache_size: if soc == json!(100) { 2 } else { 0 },
-                    service_time_unit: if cap > 1.0 { Some(TimeUnit::Seconds) } else { None },
+                    service_time_unit: if cap > 1.0 {
+                        Some(TimeUnit::Seconds)
+                    } else {
+                        None
+                    },
                     real_model: true,
                     key_decimals: 0,
                 });
@@ -511,7 +845,33 @@ fn configs(tier: Tier) -> Vec<Cfg> {
     }
     // bundled models declared in units built on different distances (km/h with a rate per mile; for the battery vehicle also
     // mph with a rate per kilometre): the recorded energy follows the declared rate unit's distance
-    for (vehicle, su, ru_) in [("ice", SpeedUnit::KilometersPerHour, EnergyRateUnit::KilowattHoursPerMile), ("bev", SpeedUnit::KilometersPerHour, EnergyRateUnit::KilowattHoursPerMile), ("phev", SpeedUnit::KilometersPerHour, EnergyRateUnit::KilowattHoursPerMile), ("bev", SpeedUnit::MilesPerHour, EnergyRateUnit::KilowattHoursPerKilometer), ("phev", SpeedUnit::MetersPerSecond, EnergyRateUnit::KilowattHoursPerKilometer)] {
+    for (vehicle, su, ru_) in [
+        (
+            "ice",
+            SpeedUnit::KilometersPerHour,
+            EnergyRateUnit::KilowattHoursPerMile,
+        ),
+        (
+            "bev",
+            SpeedUnit::KilometersPerHour,
+            EnergyRateUnit::KilowattHoursPerMile,
+        ),
+        (
+            "phev",
+            SpeedUnit::KilometersPerHour,
+            EnergyRateUnit::KilowattHoursPerMile,
+        ),
+        (
+            "bev",
+            SpeedUnit::MilesPerHour,
+            EnergyRateUnit::KilowattHoursPerKilometer,
+        ),
+        (
+            "phev",
+            SpeedUnit::MetersPerSecond,
+            EnergyRateUnit::KilowattHoursPerKilometer,
+        ),
+    ] {
         out.push(Cfg {
             vehicle: vehicle.into(),
             model_speed_unit: su,
@@ -546,7 +906,11 @@ fn configs(tier: Tier) -> Vec<Cfg> {
                     time_distance_unit: DistanceUnit::Meters,
                     time_time_unit: TimeUnit::Seconds,
                     out_distance_unit: DistanceUnit::Kilometers,
-                    grade_table_unit: if csize == 2 { GradeUnit::Percent } else { GradeUnit::Decimal },
+                    grade_table_unit: if csize == 2 {
+                        GradeUnit::Percent
+                    } else {
+                        GradeUnit::Decimal
+                    },
                     capacity_kwh: if real_model { 60.0 } else { 5.0 },
                     start_soc: json!(80),
                     adjustment: 1.2,
@@ -596,11 +960,23 @@ pub fn run(tier: Tier) -> i32 {
             let b = match build(cfg) {
                 Ok(b) => b,
                 Err(e) => {
-                    st.violation(&format!("{}.build", cfg.vehicle), "model_builds_for_valid_query", 0, || e.clone(), || json!({"cfg": cfg}));
+                    st.violation(
+                        &format!("{}.build", cfg.vehicle),
+                        "model_builds_for_valid_query",
+                        0,
+                        || e.clone(),
+                        || json!({"cfg": cfg}),
+                    );
                     continue;
                 }
             };
-            let hs = if cfg.key_decimals != 0 { &hists_fine } else if cfg.real_model { &hists_real } else { &hists_full };
+            let hs = if cfg.key_decimals != 0 {
+                &hists_fine
+            } else if cfg.real_model {
+                &hists_real
+            } else {
+                &hists_full
+            };
             // quick: every history of length <= 2 and a third of the longer ones, rotating with the configuration
             for (hi_, h) in hs.iter().enumerate() {
                 if tier == Tier::Quick && h.len() > 2 && (hi_ + i as usize) % 3 != 0 {
@@ -616,7 +992,14 @@ pub fn run(tier: Tier) -> i32 {
     });
     // starting charges that must be rejected
     for vehicle in ["bev", "phev"] {
-        for bad in [json!(-1), json!(100.5), json!("x"), json!(-0.0001), json!(1e9), Value::Null] {
+        for bad in [
+            json!(-1),
+            json!(100.5),
+            json!("x"),
+            json!(-0.0001),
+            json!(1e9),
+            Value::Null,
+        ] {
             st.evaluations += 1;
             st.transitions += 1;
             st.states += 1;
@@ -642,10 +1025,22 @@ pub fn run(tier: Tier) -> i32 {
             // a missing starting charge is an error for the hybrid only (the BEV defaults to full)
             let must_fail = !(bad.is_null() && vehicle == "bev");
             match build(&cfg) {
-                Ok(_) if must_fail => st.violation(&format!("{}.build", vehicle), "bad_starting_charge_is_rejected", 0, || format!("starting_soc_percent {} accepted", bad), || json!({"cfg": cfg})),
+                Ok(_) if must_fail => st.violation(
+                    &format!("{}.build", vehicle),
+                    "bad_starting_charge_is_rejected",
+                    0,
+                    || format!("starting_soc_percent {} accepted", bad),
+                    || json!({"cfg": cfg}),
+                ),
                 Ok(_) => st.pass("missing_charge_defaults_to_full_for_bev"),
                 Err(_) if must_fail => st.pass("bad_starting_charge_is_rejected"),
-                Err(e) => st.violation(&format!("{}.build", vehicle), "model_builds_for_valid_query", 0, || e.clone(), || json!({"cfg": cfg})),
+                Err(e) => st.violation(
+                    &format!("{}.build", vehicle),
+                    "model_builds_for_valid_query",
+                    0,
+                    || e.clone(),
+                    || json!({"cfg": cfg}),
+                ),
             }
         }
     }
@@ -682,6 +1077,14 @@ pub fn replay(case: &Value) -> i32 {
     for (k, g) in st.violations.iter() {
         println!("REPLAY-VIOLATION {} {}", k, g.detail);
     }
-    println!("replay: {} violated clauses; passes {:?}", st.violations.len(), st.clause_pass);
-    if st.violations.is_empty() { 0 } else { 1 }
+    println!(
+        "replay: {} violated clauses; passes {:?}",
+        st.violations.len(),
+        st.clause_pass
+    );
+    if st.violations.is_empty() {
+        0
+    } else {
+        1
+    }
 }
